@@ -292,7 +292,12 @@ def reduction_extra(run, sym_u, name, ops, seed, idx):
     hk[:, 0] = 0
     hk[:, 1] = (H, -H, H)
     hk[:, 2] = (-H, H, 0)
-    for tag, arr in (("float", hk.astype(float)), ("int", hk.astype(np.int64)), ("int32", hk.astype(np.int32))):
+    # orbit members that differ in one small index only ((h,h,l) ~ (h,h,-l) under a two-fold along [110], (h,k,k) ...):
+    # the ordering key has to resolve the last index next to a large first one, in whatever dtype the list comes
+    for c0, (a, b_, c) in enumerate([(H, H, 1), (H, H, -1), (H, 2, 2), (-H, 1, -1), (H // 2 + 1, H // 2 + 1, -2), (1, H, H)]):
+        hk[:, 3 + c0] = (a, b_, c)
+    for tag, arr in (("float", hk.astype(float)), ("int", hk.astype(np.int64)), ("int32", hk.astype(np.int32)),
+                     ("float32", hk.astype(np.float32)), ("int16", hk.astype(np.int16))):
         keep = arr.copy()
         b = sym_u.find_uniq_hkls(arr, grp)
         run.count("hkl_lists_checked_" + tag)
